@@ -89,6 +89,18 @@ def ensure_facts(repo="/repo", use_cache=True, extra_args=(), tag=""):
             except OSError:
                 pass
             return d, th, False, time.time() - t0
+        if not use_cache:
+            # a fresh build for this process only: the shared entry may be in use by a concurrent check, so it is neither
+            # removed nor replaced; the private entry is dropped when the process ends
+            fresh = d + ".fresh%d" % os.getpid()
+            if os.path.exists(fresh):
+                shutil.rmtree(fresh)
+            _build(repo, fresh, extra_args)
+            with open(os.path.join(fresh, "DONE"), "w") as fh:
+                fh.write(th)
+            import atexit
+            atexit.register(shutil.rmtree, fresh, True)
+            return fresh, th, True, time.time() - t0
         if os.path.exists(d):
             shutil.rmtree(d)
         # keep the cache small: drop entries not used for two hours (entries in use are touched)
@@ -100,6 +112,14 @@ def ensure_facts(repo="/repo", use_cache=True, extra_args=(), tag=""):
                         shutil.rmtree(pth)
                 except OSError:
                     pass
+        # ... and bounded: at most 80 entries (mutation sweeps create one per variant)
+        try:
+            ents = sorted((os.path.getmtime(os.path.join(CACHE_ROOT, e)), e) for e in os.listdir(CACHE_ROOT)
+                          if os.path.isdir(os.path.join(CACHE_ROOT, e)) and e != key and ".fresh" not in e)
+            for _, e in ents[:-80]:
+                shutil.rmtree(os.path.join(CACHE_ROOT, e), ignore_errors=True)
+        except OSError:
+            pass
         tmp = d + ".tmp%d" % os.getpid()
         if os.path.exists(tmp):
             shutil.rmtree(tmp)
